@@ -230,6 +230,33 @@ def f_shape_core() -> List[Case]:
     add("big_u13", [Message("M", [Field(TArray(U(13), 100), "v", 1), Field(B, "t", 2)])], ("large",))
     add("big_i3", [Message("M", [Field(U(1), "h", 1), Field(TArray(I(3), 64), "v", 2)])], ("large",))
 
+    # 16-bit prefixes whose value needs the high byte: extensible message >= 256 bits, extensible array capacity >= 256
+    add("big_ext_msg", [Message("M", [Field(U(3), "h", 1), Field(TArray(BY, 40), "raw", 2), Field(I(13), "t", 3)], ext=True),
+                        Message("W", [Field(U(5), "a", 1), Field(TRef(None), "m", 2), Field(U(9), "z", 3)])], ("large", "ext"))
+    C[-1].proto.defs[1].fields[1].type.target = C[-1].proto.defs[0]
+    add("big_ext_arr", [Message("M", [Field(U(1), "h", 1), Field(TArray(U(3), 300, ext=True), "v", 2), Field(TArray(BY, 257, ext=True), "raw", 3), Field(U(6), "t", 4)])], ("large", "ext"))
+    # arrays of messages nested two levels deep through an alias (index depth of message accessors)
+    cell2 = Message("Cell", [Field(U(4), "x", 1), Field(I(5), "y", 2)])
+    rowm = Alias("Row", TArray(TRef(cell2), 2))
+    add("arr_msg_2d", [cell2, rowm, Message("M", [Field(U(3), "p", 1), Field(TArray(TRef(rowm), 3), "rows", 2), Field(TRef(rowm), "one", 3), Field(U(2), "t", 4)])], ("array", "alias"))
+    # a local message with the same name as an imported one, different layout
+    lib_pt2 = Message("Pt", [Field(I(10), "x", 1), Field(I(10), "y", 2)])
+    lib2 = Proto("geo", [lib_pt2])
+    loc_pt = Message("Pt", [Field(U(7), "q", 1)])
+    add("imp_samename", [loc_pt, Message("M", [Field(TRef(lib_pt2, "geo.Pt"), "far", 1), Field(TRef(loc_pt), "near", 2), Field(TArray(TRef(lib_pt2, "geo.Pt"), 2), "fars", 3), Field(TArray(TRef(loc_pt), 2), "nears", 4), Field(U(3), "t", 5)])],
+        ("import", "noc"), imports=[Import(lib2, None)], only=["M"])  # "noc": C has one name space for struct tags, the schema is outside C10's precondition there
+
+    # 2-D arrays whose aliased ROW totals exactly 8/16/32/64 bits but is made of narrower elements (not contiguous
+    # in C memory), and rows of whole-byte integers as controls
+    rows = [("Nib", U(4), 2), ("Flags", B, 8), ("Quad", U(4), 4), ("Duo", I(2), 4), ("Bits16", U(1), 16), ("Oct", I(8), 4), ("W16", U(16), 2), ("Tri", U(3), 8), ("Six", I(6), 4)]
+    ral = [Alias(n, TArray(t, c)) for n, t, c in rows]
+    add("rows2d", ral + [Message("M", [Field(U(3), "p", 1)] + [Field(TArray(TRef(a), 2 + (i % 2)), f"g{i}", i + 2) for i, a in enumerate(ral)] + [Field(U(2), "t", 40)])], ("array", "alias", "batch"))
+    # arrays of integers whose C storage is wider than their wire bytes (element stride != wire bytes), and arrays of
+    # aliases to non-standard-width integers
+    add("uarr_odd", [Message("M", [Field(U(1), "p", 1)] + [Field(TArray(U(w), 3), f"u{w}", i + 2) for i, w in enumerate((17, 20, 24, 33, 40, 48, 56))] + [Field(TArray(I(w), 2), f"s{w}", i + 20) for i, w in enumerate((17, 24, 40, 56))] + [Field(U(3), "t", 60)])], ("array",))
+    sa = [Alias("S12", U(12)), Alias("D5", I(5)), Alias("U24", U(24)), Alias("I40", I(40)), Alias("B1", B), Alias("Y8", BY), Alias("U16", U(16))]
+    add("arr_alias_odd", sa + [Message("M", [Field(U(5), "p", 1)] + [Field(TArray(TRef(a), 3), f"a{i}", i + 2) for i, a in enumerate(sa)] + [Field(U(1), "t", 30)])], ("array", "alias"))
+
     # signed arrays: every byte-phase, non-standard widths
     for w in (2, 7, 9, 24, 31, 33, 40, 48, 56, 63):
         add(f"sarr{w}", [Message("M", [Field(U(3), "p", 1), Field(TArray(I(w), 3), "v", 2), Field(I(w), "s", 3), Field(U(2), "t", 4)])], ("signed",))
@@ -432,6 +459,10 @@ def evo_bases() -> List[Case]:
     inner = Message("Inner", [Field(TRef(row), "r", 1), Field(U(2), "z", 2)], ext=True)
     m2 = Message("M", [Field(TArray(TRef(row), 2, ext=True), "rows", 1), Field(TRef(inner), "inner", 2), Field(TArray(TRef(inner), 2), "inners", 3), Field(I(4), "t", 4)], ext=True)
     bases.append(case_of("evo_rows", Proto("evo_rows", [row, inner, m2]), ("ext",), only=["M"]))
+    # a large extensible message / array: the 16-bit prefix needs its high byte
+    big = Message("Big", [Field(TArray(TBase("byte"), 40), "raw", 1), Field(U(5), "k", 2)], ext=True)
+    m5 = Message("M", [Field(U(3), "h", 1), Field(TRef(big), "big", 2), Field(TArray(U(1), 260, ext=True), "bits", 3), Field(I(7), "t", 4)])
+    bases.append(case_of("evo_big", Proto("evo_big", [big, m5]), ("ext", "large"), only=["M"]))
     # empty extensible placeholder
     res = Message("Reserved", [], ext=True)
     m3 = Message("M", [Field(U(3), "h", 1), Field(TRef(res), "r", 2), Field(TArray(TRef(res), 2), "rs", 3), Field(U(6), "t", 4)])
